@@ -129,7 +129,7 @@ fn op(u: &mut Unstructured, n: usize, f: Fam) -> R<Op> {
         44 => Op::Display,
         45 => needs_var(Op::TopDecomp(idx(u, n)?)),
         46 => Op::Rel,
-        48 => Op::ConvertTo(u.int_in_range(0usize..=12)?),
+        48 => Op::ConvertTo(u.int_in_range(0usize..=13)?),
         49 => Op::Format(u.int_in_range(0usize..=9)?),
         _ => Op::Binary,
     })
